@@ -27,6 +27,21 @@ CLAIMS = {
   text="Decides the structural definition of the node id for every key type and every write of a node_id field: NodeId::from(pk) is exactly NodeId(digest(pk.encode_uncompressed())), digest is Keccak-256 over its whole argument copied into [u8;32]; each back-end's encode_uncompressed has the defining shape (k256: x into [..32] and y into [32..] of a 64-byte array, both derived from self; libsecp256k1: serialize_uncompressed()[1..] into 64 bytes; ed25519: the 32-byte key; CombinedPublicKey: delegation to the matching variant); build, decode and clone give the new record the id of the key that is in (or read from) that same record's content; every commit of the 5 core mutators has node_id = NodeId::from(public(k)) for the same k whose public key was stored last in content and that signed it; node_id() is a pure projection. Hence the id depends on the public key alone. Not decided: curve decompression and Keccak arithmetic (library).",
   note="Trusts: MIR fidelity; sha3/k256/secp256k1/ed25519-dalek compute what their API names say.",
   design="3/C10"),
+ "C01": dict(
+  technique="MIR dominance/edge-predicate rule for the signature gate + origin-tree shape rules + emission-grammar (event skeleton) analysis",
+  text="Decides, path-completely and for all four key types in every feature configuration, the structural chain that makes acceptance imply authenticity: every Ok of decode is behind the edge verify(&that record)==true with the record unmodified since; verify() returns only false or K::PublicKey::verify_v4(public_key(), rlp_content(), signature) under id()==Some(\"v4\"); public_key() reads K::enr_to_public(&self.content) and every back-end reads exactly its own key constant from that map (CombinedKey: secp256k1 then ed25519); the signed payload is list-header(len(stream))||stream with stream = seq then every (key, raw value) of the whole content map in map order, signature excluded; the record decode returns carries the very seq, signature and map it read; each back-end's verify_v4 is true only as is_ok of the library verification over self, the scheme's digest of the whole message and a signature parsed from the unmodified parameter by the strict 64-byte parser; no normalize_s/DER/recoverable parser is called anywhere; from_str and Deserialize return only what decode returned and records are constructed only in decode, build and clone. Not decided: that k256/libsecp256k1/ed25519-dalek implement the schemes and reject high-S (library facts), collision resistance.",
+  note="Trusts: MIR fidelity; k256 verify_digest and libsecp256k1 verify_ecdsa reject high-S; Signature::try_from/from_compact accept exactly 64 bytes; ed25519-dalek Verifier.",
+  design="3/C01"),
+ "C02": dict(
+  technique="MIR reader-skeleton recovery, partial evaluation of the key dispatch per key, guard-set and ordering-set analysis",
+  text="Decides every conjunct of the stated acceptance condition on decode's MIR, path-completely: input-size guard admitting exactly [0,300]; LIST header, BYTES signature, UINT64 seq in dominance order, each failure leaving with Err; the pair loop reaches Ok only through `payload is empty`; every iteration reads a BYTES key and continues only when cmp(previous key, key) is in exactly {Less}, the previous key being updated each iteration; the dispatch, folded for each of the 9 reserved keys and 11 non-reserved probes (empty key, proper prefixes/extensions of reserved names, client), consumes exactly one item of the class EIP-778 assigns - too lenient and too strict are both reported; `id` must equal v4 (in the arm or through the verify gate); K::enr_to_public(&content)? and the signature gate dominate Ok; the payload cursor is advanced only by alloy-rlp decoders or by a decoded header's payload_length. Not decided: the `if` direction as a whole (acceptance-set equality with a reference decoder needs concrete evaluation) and alloy-rlp's own canonicality checks.",
+  note="Trusts: MIR fidelity; alloy-rlp 0.3.16 decoders accept only canonical items of their class and advance exactly (class table in analysis/rlpclass.py); T-KEYS oracle transcribed from EIP-778.",
+  design="3/C02"),
+ "C13": dict(
+  technique="MIR non-interference (use census) of the input-buffer parameter",
+  text="Decides the property for all suffixes as a non-interference rule: in decode the buffer parameter is modified only by exactly one Header::decode_bytes(buf, true) (prefix-local and exactly advancing by alloy-rlp's contract), every later read works on the payload it returned, and the only other accepted uses of *buf are the two len() reads whose difference around that call measures the consumed item; any other inspection of the buffer (whole-buffer or remaining-length tests, is_empty, first(), indexing, handing it on) is reported with its site as a dependence on bytes after the record.",
+  note="Trusts: MIR fidelity; alloy-rlp Header::decode_bytes contract; Vec<Enr>::decode is alloy code calling this decode on the shrinking payload.",
+  design="3/C13"),
 }
 
 checks = []
